@@ -181,6 +181,8 @@ class Tree(object):
             kw["bidoffer"] = pd.DataFrame({c: col for c in self.data.columns}, index=self.data.index)
         elif self.spread is not None:
             kw["bidoffer"] = pd.DataFrame(float(self.spread), index=self.data.index, columns=self.data.columns)
+        if spec.get("unit_risk"):
+            kw["unit_risk"] = {"M1": pd.DataFrame({c: [1.0 + 0.25 * ((i + k) % 3) for i in range(len(self.data.index))] for k, c in enumerate(self.data.columns)}, index=self.data.index)}
         self.kw = kw
         self.spy = None
         root.use_integer_positions(bool(spec.get("integer", True)))
@@ -384,6 +386,11 @@ def histories(tree):
         for s in names:
             ser = getattr(n, s)
             d[s] = ([str(x) for x in ser.index], [float(x) for x in ser.values])
+        if hasattr(n, "risks"):
+            # risk history kept by UpdateRisk (a plain frame over all dates: the rows up to now)
+            fr = n.risks.loc[: tree.root.now]
+            for m in fr.columns:
+                d["risk:%s" % m] = ([str(x) for x in fr.index], [float(x) for x in fr[m].values])
         out[n.full_name] = d
     return out
 
